@@ -2,9 +2,10 @@
 (* C20 (and the gate semantics reused by C26): what a circuit built from the Guppy quantum
    standard library does to a register of NQ qubits.
 
-   State: `ops` the program so far, `st` the exact state vector (QuantumDefs: amplitudes in
-   Z[e^{i pi/8}]/sqrt2^k, kept canonical, un-normalised after measurements), `meas` = number of measurement-like
-   operations so far.  Actions, one per kind of library call:
+   State: `st` the exact state vector (QuantumDefs: amplitudes in
+   Z[e^{i pi/8}]/sqrt2^k, kept canonical, un-normalised after measurements), `meas` = were there measurement-like
+   operations so far (0/1), `last` the last operation, `n` the program length.
+   Actions, one per kind of library call:
      Gate(op)      a call of guppylang.std.quantum.{h,x,y,z,s,sdg,t,tdg,v,vdg,rx,ry,rz,cx,cy,
                    cz,ch,crz,toffoli} or guppylang.std.qsystem.{phased_x,zz_max,zz_phase,rz}
                    : st' = (documented matrix on the listed qubits) st
@@ -24,33 +25,40 @@ CONSTANTS Depth,        \* maximal program length explored
           MCGates,      \* gate names explored by the model checker
           MCTs          \* angle values (units of pi/4) explored
 
-VARIABLES ops, st, meas
-vars == <<ops, st, meas>>
+VARIABLES st, last, meas, n
+vars == <<st, last, meas, n>>
 
 MCTsDefault == {1, 2, -3}        \* (cfg files cannot write negative numbers)
+MCTsQuick == {1, -3}
 MCOps == GateOps(MCGates, MCTs, {"p"})
+NoOp == [g |-> "none"]
 
-Init == ops = <<>> /\ st = ZeroState /\ meas = 0
+Init == st = ZeroState /\ last = NoOp /\ meas = 0 /\ n = 0
 
-Gate(op) == /\ st' = NormState(ApplyGate(st, op))
-            /\ ops' = Append(ops, op)
+Tick == n < Depth /\ n' = n + 1
+
+Gate(op) == /\ Tick
+            /\ st' = NormState(ApplyGate(st, op))
+            /\ last' = op
             /\ UNCHANGED meas
 
-Meas(op) == /\ ~Hidden(op.g)
+Meas(op) == /\ Tick
+            /\ ~Hidden(op.g)
             /\ Possible(st, op.qs[1], op.b)
             /\ st' = NormState(ApplyMeas(st, op))
-            /\ ops' = Append(ops, op)
-            /\ meas' = meas + 1
+            /\ last' = op
+            /\ meas' = 1
 
-Reset(op) == /\ Hidden(op.g)
+Reset(op) == /\ Tick
+             /\ Hidden(op.g)
              /\ Possible(st, op.qs[1], op.b)
              /\ st' = NormState(ApplyMeas(st, op))
-             /\ ops' = Append(ops, op)
-             /\ meas' = meas + 1
+             /\ last' = op
+             /\ meas' = 1
 
-Next == /\ Len(ops) < Depth
-        /\ \/ \E op \in MCOps : Gate(op)
-           \/ \E op \in MeasOps({"p"}) : Meas(op) \/ Reset(op)
+Next == \/ \E op \in MCOps : Gate(op)
+        \/ \E op \in MeasOps({"p"}) : Meas(op)
+        \/ \E op \in MeasOps({"p"}) : Reset(op)
 
 Spec == Init /\ [][Next]_vars
 
@@ -74,6 +82,5 @@ Repeatable == \A q \in Qubits, b \in {0, 1} :
                           /\ Project(Project(st, q, b), q, b) = Project(st, q, b)
 
 \* after reset / measure-and-reset the qubit is |0>
-LastResetIsZero == (ops # <<>> /\ ops[Len(ops)].g \in MeasNames \ {"project_z"})
-                      => ~Possible(st, ops[Len(ops)].qs[1], 1)
+LastResetIsZero == last.g \in MeasNames \ {"project_z"} => ~Possible(st, last.qs[1], 1)
 =============================================================================
